@@ -9,6 +9,8 @@ pub(crate) mod instruction;
 pub(crate) mod instruction_constants;
 pub(crate) mod interpreter;
 pub(crate) mod stack;
+#[cfg(mscript_verif)]
+pub(crate) mod verif;
 
 mod variables;
 
